@@ -163,7 +163,7 @@ std::optional<StunParserResult> parse_stun_response(const std::uint8_t* data,
     while (remaining >= 4 && offset + 4 <= length) {
         const auto attr_type = static_cast<std::uint16_t>((data[offset] << 8) | data[offset + 1]);
         const auto attr_length = static_cast<std::uint16_t>((data[offset + 2] << 8) | data[offset + 3]);
-        if (attr_length > remaining || offset + 4 + attr_length > length) {
+        if (attr_length > remaining - 4 || offset + 4 + attr_length > length) {
             break;
         }
 
